@@ -173,6 +173,9 @@ def render_region(hdr, dirs):
         k = d["kind"]
         if k == "spec":
             inserts.append((ct[bopen][2], "\n" + payload + "\n"))
+        elif k == "body-start":
+            # structural anchor: first thing inside the function body (robust against edits of statements)
+            inserts.append((ct[bopen][3], "\n" + payload + "\n"))
         elif k == "ret":
             name = d["arg"].strip()
             # find `->` at depth 0 between kw and bopen
